@@ -16,6 +16,7 @@ const (
 	KCond
 	KRef
 	KSlice
+	KStruct
 )
 
 type SType struct {
@@ -24,9 +25,10 @@ type SType struct {
 }
 
 type SVal struct {
-	T   Term
-	Ty  SType
-	Len Term // KSlice
+	T    Term
+	Ty   SType
+	Len  Term   // KSlice
+	Flat []Term // KStruct: flattened leaves (Ty.Elem is the struct type)
 }
 
 func stypeOfGo(t types.Type) SType {
@@ -181,7 +183,10 @@ func (e *Env) eval(x Expr) SVal {
 		bvName := fmt.Sprintf("q_%s_%d", x.Var, e.g.nfresh)
 		n := e.with(map[string]SVal{x.Var: iv(Term{bvName, SInt})})
 		n.noDefine = true
+		saved := e.g.noSideFacts
+		e.g.noSideFacts = true
 		body := n.boolean(x.Body)
+		e.g.noSideFacts = saved
 		return bv(Term{fmt.Sprintf("(forall ((%s Int)) (=> (and (<= %s %s) (<= %s %s)) %s))", bvName, lo.S, bvName, bvName, hi.S, body.S), SBool})
 	case *EUn:
 		switch x.Op {
@@ -314,6 +319,25 @@ func (e *Env) binary(x *EBin) SVal {
 
 func (e *Env) field(x *EField) SVal {
 	base := e.eval(x.X)
+	if base.Ty.K == KStruct {
+		stt := base.Ty.Elem.Underlying().(*types.Struct)
+		start := 0
+		for i := 0; i < stt.NumFields(); i++ {
+			ft := stt.Field(i).Type()
+			n := len(e.g.L.leaves(ft, 0, ""))
+			if _, isSlice := ft.Underlying().(*types.Slice); isSlice {
+				n = 2
+			}
+			if stt.Field(i).Name() == x.Name {
+				if _, ok := scalarSort(ft); ok {
+					return SVal{T: base.Flat[start], Ty: stypeOfGo(ft)}
+				}
+				return SVal{T: IntLit(0), Ty: SType{K: KStruct, Elem: ft}, Flat: base.Flat[start : start+n]}
+			}
+			start += n
+		}
+		e.fail("no field %s", x.Name)
+	}
 	if base.Ty.K != KRef || base.Ty.Elem == nil {
 		e.fail("field %s of non-reference in %s", x.Name, exprString(x))
 	}
@@ -344,6 +368,10 @@ func (g *Gen) fieldOf(st *State, a Term, t types.Type, name string) SVal {
 		}
 		if s, ok := scalarSort(ft); ok {
 			v := g.load(st, sname+"."+name, a, s)
+			if _, _, isInt := intRange(ft); isInt && !isCondition(ft) && !g.noSideFacts {
+				// typing invariant of the heap: an integer field holds a value of its type
+				g.assume(rangeFact(v, ft))
+			}
 			return SVal{T: v, Ty: stypeOfGo(ft)}
 		}
 		return SVal{T: Add(a, IntLit(off)), Ty: SType{K: KRef, Elem: ft}}
@@ -389,6 +417,12 @@ func (e *Env) call(x *ECall) SVal {
 	case "pow10", "nd10", "pow2", "bitlen":
 		need(1)
 		return iv(app(SInt, x.Fn, e.integer(args[0])))
+	case "wrap64":
+		need(1)
+		return iv(Wrap(e.integer(args[0]), 64, true))
+	case "wrap64u":
+		need(1)
+		return iv(Wrap(e.integer(args[0]), 64, false))
 	case "abs":
 		need(1)
 		return iv(app(SInt, "absi", e.integer(args[0])))
